@@ -125,6 +125,11 @@ def run(ctx: Ctx):
               bad_detail=f"csv dialect differs between reader {rk} {pos_r} and writer {wk} {pos_w}: what to_csv writes is not parsed back the same way "
                          f"(e.g. skipinitialspace strips the leading blanks the writer leaves unquoted; a different quotechar/escapechar/doublequote "
                          f"misreads quoted fields)", key="dialect")
+    # text encoding of the two open() calls must agree (a label written in one encoding must be read in the same)
+    ro, wo = _open_of(r, rc.args[0]), _open_of(w, wc.args[0])
+    enc = lambda o: {k.arg: norm(k.value) for k in (o.keywords if o is not None else []) if k.arg in ("encoding", "errors")}
+    ctx.check(enc(ro) == enc(wo), "R-C18-2", r, ro or rc, f"reader and writer open the file with the same text encoding ({enc(ro) or 'platform default on both sides'})",
+              bad_detail=f"from_csv opens with {enc(ro)} but to_csv with {enc(wo)}: non-ASCII annotators / labels do not round-trip", key="encoding")
     ctx.check(_newline_ok(_open_of(r, rc.args[0])), "R-C18-2", r, _open_of(r, rc.args[0]) or rc, "input file opened with newline=''",
               bad_detail="from_csv opens the file without newline='': universal-newline translation turns a quoted '\\r' or '\\r\\n' inside a label into '\\n'",
               key="reader-newline")
